@@ -49,7 +49,9 @@ func runC01(c *Ctx) bool {
 	if !c.Quick() {
 		extremes = append(extremes, func() ([]int, []string) { return chain(1500), nil })
 	}
-	for _, w := range gen.WideSizes {
+	// (one parent with more than 2^14 children - 2^16 in the thorough tier; sibling look-up is linear,
+	// so these two cases cost seconds, and only this check carries them)
+	for _, w := range append(append([]int{}, gen.WideSizes...), c.Pick(16400, 65600)) {
 		w := w
 		extremes = append(extremes, func() ([]int, []string) {
 			d, n := gen.WideDup(w, []int{0, w / 2, w - 2, w - 1})
